@@ -180,6 +180,7 @@ func vArbitraryF(n int, unbuffered int, fullMaps bool) *vEnv {
 	}
 	vAssume(d.feedbackLimit >= 1)
 	e.d = d
+	vKnownFields(d, "opts feedback inputs output priorities actual strategic tactic uncrowded useful feedbackLimit interrupter err")
 	e.G = make([]uint, n)
 	present := 1
 	if !e.fullMaps {
